@@ -65,8 +65,13 @@ func (bucket *Bucket) Close(_ context.Context) {
 // _closeSqliteDB closes the underlying sqlite database and shuts down dcpFeeds. Must have a lock to call this function.
 func (bucket *Bucket) _closeSqliteDB() {
 	bucket.expManager.stop()
-	for _, c := range bucket.collections {
-		c.close()
+	// Stop every feed of the store: the feed registry is shared by all handles, whereas
+	// bucket.collections only lists the collections this particular handle has opened.
+	for name, feeds := range bucket.collectionFeeds {
+		for _, feed := range feeds {
+			feed.close()
+		}
+		delete(bucket.collectionFeeds, name)
 	}
 	if bucket.sqliteDB != nil {
 		bucket.sqliteDB.Close()
